@@ -49,12 +49,12 @@ func (e *env) prepare(n int) {
 
 // valid returns a loadable configuration; variant selects optional extras so
 // that valid loads exercise the same global state the failures touch.
-func (e *env) valid(n, variant int) string {
+func (e *env) valid(n, variant, ht int) string {
 	var b bytes.Buffer
 	extraA, extraC := "", ""
 	switch variant % 4 {
 	case 1:
-		extraA = " basicauth /private u htpasswd=htpasswd\n"
+		extraA = fmt.Sprintf(" basicauth /private u htpasswd=../ht-%d.htpasswd\n", ht)
 	case 2:
 		extraC = " on startup /bin/true\n"
 	case 3:
@@ -69,7 +69,7 @@ func (e *env) valid(n, variant int) string {
 
 var failKinds = []string{
 	"syntax", "unknown-directive", "bad-arg-timeouts", "bad-arg-gzip", "bad-arg-redir", "bad-arg-limits", "bad-arg-proxy-policy",
-	"missing-htpasswd", "missing-cert", "missing-import", "missing-template-arg", "startup-callback-log", "startup-command",
+	"missing-htpasswd", "malformed-htpasswd", "missing-cert", "missing-import", "missing-template-arg", "startup-callback-log", "startup-command",
 	"listen-occupied", "listen-occupied-with-on-hook", "setup-fails-after-on-hook", "startup-fails-after-on-hook", "tls-plaintext-mix",
 }
 
@@ -79,8 +79,8 @@ var lateKinds = map[string]bool{"startup-callback-log": true, "listen-occupied":
 	"startup-fails-after-on-hook": true, "tls-plaintext-mix": true}
 
 // invalid returns a configuration of marker n that must fail.
-func (e *env) invalid(kind string, n int) string {
-	v := e.valid(n, 0)
+func (e *env) invalid(kind string, n, ht int) string {
+	v := e.valid(n, 0, 0)
 	addA := func(line string) string {
 		return strings.Replace(v, fmt.Sprintf(" header / X-Verif-Config %d\n}", n), fmt.Sprintf(" header / X-Verif-Config %d\n %s\n}", n, line), 1)
 	}
@@ -105,6 +105,10 @@ func (e *env) invalid(kind string, n int) string {
 		return addA("proxy /api 127.0.0.1:1 {\n  policy nosuchpolicy\n }")
 	case "missing-htpasswd":
 		return addA("basicauth /x u htpasswd=no-such-htpasswd")
+	case "malformed-htpasswd":
+		// the file exists but its first line is malformed while this attempt runs
+		// (the child repairs it afterwards: see sharedHtpasswd)
+		return addA(fmt.Sprintf("basicauth /x u htpasswd=../ht-%d.htpasswd", ht))
 	case "missing-cert":
 		return v + fmt.Sprintf("https://t.test:%d {\n tls %s %s\n}\n", e.P3, filepath.Join(e.Dir, "no.crt"), filepath.Join(e.Dir, "no.key"))
 	case "missing-import":
@@ -136,6 +140,11 @@ type step struct {
 	Kind    string `json:"kind"` // "valid" or a failure kind
 	N       int    `json:"n"`
 	Variant int    `json:"variant,omitempty"`
+	// Ht selects the htpasswd file ht-<Ht>.htpasswd of the history: a
+	// malformed-htpasswd attempt uses a file no earlier load has read (casket
+	// caches parsed htpasswd files for the life of the process), later valid
+	// configurations use the file of the latest such attempt, repaired.
+	Ht int `json:"ht,omitempty"`
 }
 
 type history struct {
@@ -153,7 +162,8 @@ type snapshot struct {
 	Listen    []string          `json:"listen"` // "port/inode"
 	Ports     map[string]int    `json:"ports"`  // own listening sockets per port
 	FDs       int               `json:"fds"`
-	Sites     map[string]string `json:"sites"` // site -> "status/marker/bodyhash"
+	ListenFDs int               `json:"listen_fds"` // own descriptors that refer to a listening socket (duplicates count)
+	Sites     map[string]string `json:"sites"`      // site -> "status/marker/bodyhash"
 	Connect   map[string]bool   `json:"connect"`
 	Battery   []string          `json:"battery,omitempty"`
 }
@@ -164,6 +174,19 @@ var (
 	loaderMu  sync.Mutex
 	nextInput casket.Input
 )
+
+const goodHtpasswd = "other:{SHA}MCdMR5A70brHYzu/CXQxSeurgF8=\nu:{SHA}MCdMR5A70brHYzu/CXQxSeurgF8=\n"
+
+// sharedHtpasswd (re)writes the htpasswd file shared by the configurations of a
+// history: malformed while a "malformed-htpasswd" attempt runs, valid otherwise.
+// The environment at the time of every other attempt is therefore a valid file.
+func sharedHtpasswd(e *env, ht int, malformed bool) {
+	content := goodHtpasswd
+	if malformed {
+		content = "other:{SHA}MCdMR5A70brHYzu/CXQxSeurgF8=\nthis line has no colon\nu:{SHA}MCdMR5A70brHYzu/CXQxSeurgF8=\n"
+	}
+	os.WriteFile(filepath.Join(e.Dir, fmt.Sprintf("ht-%d.htpasswd", ht)), []byte(content), 0o644)
+}
 
 func takeSnapshot(e *env, idx int) *snapshot {
 	s := &snapshot{Step: idx, Instances: len(casket.Instances()), Ports: map[string]int{}, Sites: map[string]string{}, Connect: map[string]bool{}}
@@ -181,6 +204,23 @@ func takeSnapshot(e *env, idx int) *snapshot {
 	}
 	sort.Strings(s.Listen)
 	s.FDs = lib.FDCount()
+	// descriptors, not sockets: a duplicated listener (hand-over on reload) that
+	// is never closed keeps the port bound after the owner has stopped
+	listening := map[string]bool{}
+	for k := range lib.ListeningTCP() {
+		if i := strings.IndexByte(k, '/'); i >= 0 {
+			listening[k[i+1:]] = true
+		}
+	}
+	if ents, err := os.ReadDir("/proc/self/fd"); err == nil {
+		for _, e := range ents {
+			if t, err := os.Readlink("/proc/self/fd/" + e.Name()); err == nil && strings.HasPrefix(t, "socket:[") {
+				if listening[strings.TrimSuffix(strings.TrimPrefix(t, "socket:["), "]")] {
+					s.ListenFDs++
+				}
+			}
+		}
+	}
 	for _, p := range []int{e.P1, e.P2, e.P3} {
 		c, err := net.DialTimeout("tcp", fmt.Sprintf("127.0.0.1:%d", p), 2*time.Second)
 		if err == nil {
@@ -303,11 +343,12 @@ func child(args []string) int {
 	for i, st := range h.Steps {
 		var text string
 		if st.Kind == "valid" {
-			text = e.valid(st.N, st.Variant)
+			text = e.valid(st.N, st.Variant, st.Ht)
 		} else {
-			text = e.invalid(st.Kind, st.N)
+			text = e.invalid(st.Kind, st.N, st.Ht)
 		}
 		input := lib.Input(text, filepath.Join(e.Dir, "Casketfile"))
+		sharedHtpasswd(e, st.Ht, st.Kind == "malformed-htpasswd")
 		stepMu.Lock()
 		stepStart, stepIdx = time.Now(), i
 		stepMu.Unlock()
@@ -370,6 +411,7 @@ func child(args []string) int {
 		stepMu.Lock()
 		stepStart = time.Time{}
 		stepMu.Unlock()
+		sharedHtpasswd(e, st.Ht, false)
 		s := takeSnapshot(e, i)
 		s.OK = err == nil
 		if err != nil {
@@ -403,12 +445,31 @@ func run(c *lib.Ctx) {
 	dir := filepath.Join(c.Dir, "fix")
 	os.MkdirAll(dir, 0o755)
 	rng := c.Rng("c08")
-	nh := c.Pick(64, 1500)
+	nh := c.Pick(48, 1500)
 	type job struct {
 		id int
 		h  history
 	}
 	var jobs []job
+	// focused histories: failures of a RELOAD of a running instance (which
+	// inherits listeners), twice in a row, for the kinds that fail late
+	focusKinds := []string{"listen-occupied", "listen-occupied-with-on-hook", "startup-callback-log", "startup-fails-after-on-hook", "tls-plaintext-mix", "malformed-htpasswd", "setup-fails-after-on-hook", "missing-import"}
+	fid := 100000
+	for rep := 0; rep < c.Pick(2, 12); rep++ {
+		for _, op := range []string{"restart", "sigusr1"} {
+			for _, kind := range focusKinds {
+				ports := pickPorts(fid, 3)
+				e := env{Dir: filepath.Join(dir, fmt.Sprintf("f%d", fid)), P1: ports[0], P2: ports[1], P3: ports[2]}
+				os.MkdirAll(e.Dir, 0o755)
+				steps := []step{{Op: "start", Kind: "valid", N: 1, Variant: rep % 4}, {Op: op, Kind: kind, N: 901}, {Op: op, Kind: kind, N: 902}, {Op: op, Kind: "valid", N: 2, Variant: (rep + 1) % 4}, {Op: "restart", Kind: kind, N: 903}, {Op: op, Kind: "valid", N: 3, Variant: 1}}
+				for _, st := range steps {
+					(&e).prepare(st.N)
+				}
+				jobs = append(jobs, job{fid, history{Env: e, Steps: steps}})
+				fid++
+			}
+		}
+	}
 	for i := 0; i < nh; i++ {
 		ports := pickPorts(i, 3)
 		e := env{Dir: filepath.Join(dir, fmt.Sprintf("h%d", i)), P1: ports[0], P2: ports[1], P3: ports[2]}
@@ -455,6 +516,15 @@ func run(c *lib.Ctx) {
 		(&e).prepare(fin.N)
 		steps = append(steps, fin)
 		jobs = append(jobs, job{i, history{Env: e, Steps: steps}})
+	}
+	for _, j := range jobs {
+		ht := 0
+		for k := range j.h.Steps {
+			if j.h.Steps[k].Kind == "malformed-htpasswd" {
+				ht = j.h.Steps[k].N
+			}
+			j.h.Steps[k].Ht = ht
+		}
 	}
 	var wg sync.WaitGroup
 	sem := make(chan struct{}, 8)
@@ -563,6 +633,9 @@ func runHistory(c *lib.Ctx, id int, h history) {
 		if strings.Join(after.Listen, ",") != strings.Join(before.Listen, ",") {
 			c.Violation("C08/listeners-leaked-on-failed-load/"+st.Op, fmt.Sprintf("failed %s (%s) changed this process' listening sockets: %v -> %v", st.Op, st.Kind, before.Listen, after.Listen), wit(map[string]interface{}{"step": i}))
 		}
+		if after.ListenFDs != before.ListenFDs {
+			c.Violation("C08/listener-descriptors-leaked-on-failed-load/"+st.Op, fmt.Sprintf("failed %s (%s) changed the number of descriptors this process holds on listening sockets from %d to %d (a leaked duplicate keeps the port bound after the instance stops)", st.Op, st.Kind, before.ListenFDs, after.ListenFDs), wit(map[string]interface{}{"step": i}))
+		}
 		for p, ok := range after.Connect {
 			if ok != before.Connect[p] {
 				c.Violation("C08/port-state-changed-by-failed-load", fmt.Sprintf("failed %s (%s): port %s connectable %v -> %v", st.Op, st.Kind, p, before.Connect[p], ok), wit(map[string]interface{}{"step": i}))
@@ -576,7 +649,7 @@ func runHistory(c *lib.Ctx, id int, h history) {
 	}
 	// differential against a fresh process
 	last := h.Steps[len(h.Steps)-1]
-	fresh := history{Env: h.Env, Steps: []step{{Op: "start", Kind: "valid", N: last.N, Variant: last.Variant}}, Fresh: true}
+	fresh := history{Env: h.Env, Steps: []step{{Op: "start", Kind: "valid", N: last.N, Variant: last.Variant, Ht: last.Ht}}, Fresh: true}
 	// the fresh run re-uses the same ports: the first child has exited
 	in2, _ := json.Marshal(fresh)
 	res2 := c.Sub("hist", nil, in2, nil, 3*time.Minute)
